@@ -265,7 +265,9 @@ package electreIII
 
 //@ func calcCoords
 //@   property C05 C06 C01 C20
+//@   panics_iff [division_by_zero] size == 0
 //@   ensures [row_major] size > 0 && index >= 0 ==> result0 * size + result1 == index && 0 <= result1 && result1 < size
+//@   ensures [quotient_and_remainder] size != 0 ==> result0 == index / size && result1 == index % size
 
 //@ func (*Matrix).Filter
 //@   property C05 C06 C01 C20
@@ -433,13 +435,18 @@ package electreIII
 //@   loop 1 invariant [undecided_written] forall i int :: 0 <= i && i < iter && old((*positions)[i]) == 0 ==> exists w int :: 0 <= w && w < toWriteIndex && w < len(*positionsToWrite) && (*positions)[i] == (*positionsToWrite)[w]
 
 // Matches: per group (row or column) the number of entries satisfying the predicate; one counter per group
+// gcount: how many of the first n cells (row-major) satisfy the predicate and are put into group g by the evaluator
+//@ spec gcount(d []float64, size int, ge func(int, int) int, pr func(float64) bool, g int, n int) int =
+//@      n <= 0 ? 0 : gcount(d, size, ge, pr, g, n - 1) + ((apply(ge, (n - 1) / size, (n - 1) % size) == g && apply(pr, d[n - 1])) ? 1 : 0)
 //@ func (*Matrix).Matches
 //@   property C05 C06 C01 C20
 //@   fnparam groupEvaluator pure
 //@   fnparam predicate pure
 //@   ensures [one_counter_per_group] fresh(result) && len(result) == groupsNumber && forall g int :: 0 <= g && g < groupsNumber ==> 0 <= result[g] && result[g] <= len(m.Data)
+//@   ensures [counts_of_matching_cells_per_group] forall g int :: 0 <= g && g < groupsNumber ==> result[g] == gcount(m.Data, m.Size, groupEvaluator, predicate, g, len(m.Data))
 //@   loop 1 invariant [ctx] fresh(groups) && len(groups) == groupsNumber
 //@   loop 1 invariant [bounded_counts] forall g int :: 0 <= g && g < groupsNumber ==> 0 <= groups[g] && groups[g] <= iter
+//@   loop 1 invariant [counts_so_far] forall g int :: 0 <= g && g < groupsNumber ==> groups[g] == gcount(m.Data, m.Size, groupEvaluator, predicate, g, iter)
 //@ func (*Matrix).MatchesInRow$1
 //@   property C05 C06 C01 C20
 //@   nopanic
@@ -486,3 +493,25 @@ package electreIII
 //@   property C05 C06 C20
 //@   nopanic
 //@   ensures [name] result == "electreIII"
+
+// ---- qualification (C05, C06): strength = matching cells in the alternative's row, weakness = in its column, quality = the difference
+// rowcount / colcount are gcount with an evaluator that answers the row resp. the column (any such evaluator: it is quantified)
+//@ func (*Matrix).MatchesInRow
+//@   property C05 C06 C01 C20
+//@   fnparam predicate pure
+//@   ensures [one_count_per_row] fresh(result) && len(result) == m.Size
+//@   ensures [matching_cells_of_the_row] exists ge func(int, int) int :: (forall r int, c int :: apply(ge, r, c) == r)
+//@             && forall g int :: 0 <= g && g < m.Size ==> result[g] == gcount(m.Data, m.Size, ge, predicate, g, len(m.Data))
+//@ func (*Matrix).MatchesInColumn
+//@   property C05 C06 C01 C20
+//@   fnparam predicate pure
+//@   ensures [one_count_per_column] fresh(result) && len(result) == m.Size
+//@   ensures [matching_cells_of_the_column] exists ge func(int, int) int :: (forall r int, c int :: apply(ge, r, c) == c)
+//@             && forall g int :: 0 <= g && g < m.Size ==> result[g] == gcount(m.Data, m.Size, ge, predicate, g, len(m.Data))
+//@ func computeQuality
+//@   property C05 C06 C01 C20
+//@   ensures [one_quality_per_alternative] result != nil && fresh(result) && fresh(*result) && len(*result) == matrix.Size
+//@   ensures [positive_cells_in_the_row_minus_positive_cells_in_the_column] exists rowOf func(int, int) int, colOf func(int, int) int ::
+//@             (forall r int, c int :: apply(rowOf, r, c) == r && apply(colOf, r, c) == c)
+//@             && forall g int :: 0 <= g && g < matrix.Size ==> (*result)[g] == gcount(matrix.Data, matrix.Size, rowOf, utils.IsPositive, g, len(matrix.Data))
+//@                                                                        - gcount(matrix.Data, matrix.Size, colOf, utils.IsPositive, g, len(matrix.Data))
